@@ -23,8 +23,20 @@ def b64(s):
 NAMES = {1: "main.E1", 2: "e2/x", 3: "main.E3", 4: "main.E4"}
 KEYS = ["", "a", "b/c", "/", "ünï✓", "a/b", "k with space", "long" * 30, "\"q\"", "e2/x/a"]
 
+NAMEPOOL = ["", "plain", "ünï", "q\"uote", "<&>", "new\nline"]
+
 def doc_for(ty, v):
-    return {"id": v, "name": "x"} if ty != 2 else {"id": v, "m": {"a": 1}}
+    """the JSON document of THE value with index v (go/harness/state.go mkE1/mkE2/mkE3)"""
+    if ty == 2:
+        return {"id": v, "m": ({"k%d" % (v % 3): v} if v % 5 else None)}
+    if ty == 3:
+        return {"id": v, "s": NAMEPOOL[v % 6]}
+    d = {"id": v, "name": NAMEPOOL[v % 6], "f": v * 0.25}
+    if v % 3 == 0:
+        d["tags"] = ["t", str(v)]
+    if v % 4 == 1:
+        d["nested"] = {"id": v, "name": "n", "f": 0}
+    return d
 
 # hostile / odd documents with the behaviour the model assigns to them: (abstract class, json text or bytes)
 def raw_table(rng):
@@ -87,10 +99,17 @@ def gen_case(rng, tier, focus):
         ty = rng.choice([1, 2, 3, 3, 2, 1, 4])
         k = rng.choice(keys)
         v = rng.randrange(1, 60)
+        def val(ty, o):
+            # a write whose Go type is not the entity type it is filed under (the unregistered E4, or et= naming another
+            # type) carries nothing but its id across: indices >= 1000 name those id-only values (harness mkE*)
+            cross = ty == 4 or any(w.startswith("et=") and w != "et=%d" % ty for w in o.split())
+            return v + 1000 if cross else v
         if x < 0.30:
-            lines.append("ins %d %d %d%s" % (ty, k, v, opts()))
+            o = opts()
+            lines.append("ins %d %d %d%s" % (ty, k, val(ty, o), o))
         elif x < 0.45:
-            lines.append("upd %d %d %d%s" % (rng.choice([1, 2, 3]), k, v, opts()))
+            t2 = rng.choice([1, 2, 3]); o = opts()
+            lines.append("upd %d %d %d%s" % (t2, k, val(t2, o), o))
         elif x < 0.50:
             lines.append("updold %d %d %d %d" % (rng.choice([1, 2, 3]), k, v, rng.randrange(60)))
         elif x < 0.62:
